@@ -7,7 +7,7 @@
 From Verif Require Import Common.Base.
 From Verif Require Import Generated.C15Recv Generated.C15GrpcExp Generated.C15HttpExp Generated.C15StatusUtil.
 From Verif Require Import Generated.C15Shutdown Generated.C15ServerTimeouts Generated.C15RecvHttpGraph Generated.C15ErrorsGraph.
-From Verif Require Import C15.Model C15.Harness C15.Proofs C15.Obligations C15.PropCheck.
+From Verif Require Import C15.Model C15.Harness C15.Proofs C15.Obligations C15.PropCheck C15.Link.
 Local Open Scope Z_scope.
 
 (* ---- clause 1: the data arrives equal to what was sent, for every signal / encoding / compression.
@@ -349,6 +349,60 @@ Proof. exact errors_graph_complete_l. Qed.
 Theorem clause_checker_sound : forall c, prop_ok c = true <-> Clause c.
 Proof. exact prop_ok_sound. Qed.
 
+(* ---- ... and what the MODEL produces always passes that checker (C15/Link.v): for every kind of case, on the
+   observation built from the model's own run exactly as Harness.model_out builds it, for ALL inputs.  So the checker
+   never demands more than the model delivers, and its verdicts and the theorems above are about the same clauses. *)
+Theorem model_hop_passes_checker : forall t a n o,
+  decide (hop_form (tz_of t) (az_of a) (Z.of_N n) o (hop_obs (hop t a n o))) = true.
+Proof. exact model_hop_passes_checker_l. Qed.
+
+(* the same on the raw case the driver evaluates (inputs encoded as the harness encodes them) *)
+Theorem model_hop_case_passes_checker : forall t a n o sg cp ls lv kb obs0 m, encodable o ->
+  model_out (hop_case t a n o sg cp ls lv kb obs0) = Some m ->
+  prop_ok (hop_case t a n o sg cp ls lv kb m) = true.
+Proof. exact model_hop_case_passes_checker_l. Qed.
+
+Theorem model_shutdown_passes_checker : forall ph t n o,
+  decide (shutdown_form (tz_of t) (pz_of ph) (Z.of_N n) o (hop_obs (hop_at ph t NoAuth n o))) = true.
+Proof. exact model_shutdown_passes_checker_l. Qed.
+
+(* guards: a non-negative write timeout; items > 0 (beyond write_timeout the checker only asks that the consumer got the
+   data, which needs a consumer call) *)
+Theorem model_slow_consumer_passes_checker : forall t read_ms write_ms hold_ms n o, 0 <= write_ms -> (0 < n)%N ->
+  decide (slow_form (tz_of t) write_ms hold_ms (Z.of_N n) o
+            (hop_obs (hop_slow (mkTO (read_ms * 1000000) 0 (write_ms * 1000000) 0) (hold_ms * 1000000) t NoAuth n o))) = true.
+Proof. exact model_slow_consumer_passes_checker_l. Qed.
+
+Theorem model_raw_http_passes_checker : forall a e p c b o,
+  decide (raw_http_form (az_of a) (ez_of e) (b2z p) (cz_of c) (bz_of b) o
+            (http_obs (recv_http (mkReq a e p c b) o))) = true.
+Proof. exact model_raw_http_passes_checker_l. Qed.
+
+Theorem model_raw_grpc_passes_checker : forall a b o,
+  decide (raw_grpc_form (az_of a) (bz_of b) o (grpc_obs (recv_grpc a b o))) = true.
+Proof. exact model_raw_grpc_passes_checker_l. Qed.
+
+Theorem model_status_passes_checker : forall o,
+  decide (status_form o (gstatus_obs (get_status_from_error o))) = true.
+Proof. exact model_status_passes_checker_l. Qed.
+
+Theorem model_process_error_passes_checker : forall c ri,
+  decide (process_form c ri (verdict_obs (process_error (Some (c, ri))))) = true.
+Proof. exact model_process_error_passes_checker_l. Qed.
+
+Theorem model_http_export_passes_checker : forall st h b,
+  decide (export_form st h b (verdict_obs (http_export st h b))) = true.
+Proof. exact model_http_export_passes_checker_l. Qed.
+
+Print Assumptions model_hop_passes_checker.
+Print Assumptions model_hop_case_passes_checker.
+Print Assumptions model_shutdown_passes_checker.
+Print Assumptions model_slow_consumer_passes_checker.
+Print Assumptions model_raw_http_passes_checker.
+Print Assumptions model_raw_grpc_passes_checker.
+Print Assumptions model_status_passes_checker.
+Print Assumptions model_process_error_passes_checker.
+Print Assumptions model_http_export_passes_checker.
 Print Assumptions clause_checker_sound.
 Print Assumptions recvhttp_model_matches_code.
 Print Assumptions recvhttp_graph_complete.
